@@ -1322,6 +1322,36 @@ example : Gen.Fn.dep_tgt_dep_dispatch none (some 7) none 42 0 1 0 0 none none (f
 example : Gen.Fn.dep_tgt_dep_dispatch none (some 7) none 42 0 1 1 0 none none (fun _ _ => some 9) = (some 7, none) := by
   decide +kernel
 
+/-- the whole dispatch chain of `send_dep_res_recv_dep_req` (one turn of its loop after `req` arrived) takes the
+reference decision: None = `return None`, else the new `(res, dep_req)` -/
+theorem tgt_dispatch_bridge (res dep_res dep_req : Option Int) (req : Int) (reqNone didMismatch isDsl isRls isDep : Bool)
+    (fmt rpni pni drf : Nat) (did nad : Option Int) (mk : Option Int → Option Int → Option Int) :
+    Gen.Fn.dep_tgt_dispatch res dep_res dep_req req reqNone didMismatch isDsl isRls isDep (fmt : Int) (rpni : Int)
+        (pni : Int) (drf : Int) did nad mk
+      = if reqNone then none
+        else match tgtDispatch didMismatch isDsl isRls isDep fmt rpni (some pni) (dep_res.isSome && decide (drf = fTOX)) with
+          | .ignore => some (none, dep_req)
+          | .leave => none
+          | .dep .atn => some (mk did nad, dep_req)
+          | .dep .resend => some (dep_res, dep_req)
+          | .dep .accept => some (res, some req) := by
+  have hin := tgt_dep_dispatch_bridge res dep_res dep_req req fmt rpni pni drf did nad mk
+  cases reqNone
+  · cases didMismatch
+    · cases isDsl
+      · cases isRls
+        · cases isDep
+          · rfl
+          · show some (Gen.Fn.dep_tgt_dep_dispatch res dep_res dep_req req (fmt : Int) (rpni : Int) (pni : Int) (drf : Int)
+                did nad mk) = _
+            rw [hin]
+            simp only [tgtDispatch, Bool.false_eq_true, if_false, Bool.or_self, if_true]
+            cases tgtDecide fmt rpni (some pni) (dep_res.isSome && decide (drf = fTOX)) <;> rfl
+        · cases isDep <;> rfl
+      · cases isRls <;> cases isDep <;> rfl
+    · cases isDsl <;> cases isRls <;> cases isDep <;> rfl
+  · rfl
+
 /-! ## NFCID3 of the Target, its SENSF_RES, and what the Initiator takes from it -/
 
 theorem tgt_nfcid3_bridge (u : Int → Bytes) : Gen.Fn.dep_tgt_nfcid3 u = Activate.nfcid3tOf (u 6) := by
